@@ -654,6 +654,22 @@ def r7_failed_create_not_published(repo=None, rid="C02.R7"):
             reach = g.reach(starts, avoid=setters)
             bad = [x for x in g.nodes if x.kind == "return" and x.id in reach and x.ast.children and x.ast.children[0].intval() not in (None, 0)]
             site = "%s:%s digital_rf_create_hdf5_file `%s`" % (C_LIB, n.line, n.label[:50])
+            # a refusal taken before the writer object remembers the new name is harmless: the remembered name is still the
+            # previous file's, which this writer created (nothing else of the object has changed either)
+            _direct, _trans = identity_writers(tu)
+            remembered_before = []
+            for w in g.nodes:
+                if w.ast is None or w.kind not in ("stmt", "cond", "return") or w.id == n.id:
+                    continue
+                hit = any(path and path.startswith(clib.OBJ + "->") and path.split("->")[-1] in IDENTITY and kind != "call:free"
+                          for path, node, rhs, kind in clib.stores(w.ast)) or any(
+                    c2.callee in _trans and c2.callee != "digital_rf_close_hdf5_file" for c2 in w.ast.calls())
+                if hit and n.id in g.reach([w.id], skip_labels=("back",)):
+                    remembered_before.append(w)
+            if bad and not remembered_before:
+                r.ok(site, "a tmp name found taken is refused before the writer object remembers the new name (no store to %s can "
+                     "precede the test): the close step still finds only this writer's own file" % "/".join(IDENTITY))
+                continue
             if bad:
                 r.violation(C_LIB, fn.name, "%s -> %s without has_failure" % (n.label[:50], bad[0].label[:20]),
                             "the tmp name this call is about to create is found taken (a file left by a killed writer) and the call is "
